@@ -210,12 +210,16 @@ def check(ctx):
         if e["ev"] == "load":
             loads[e["rid"]] = e
     owned = []
+    # runs whose yields are already wrong for window / rule reasons (C05's business)
+    c05_runs = {by_id[i]["rid"] for i, cl in rejects if cl.startswith("c05_") and cl not in ("c05_total", "c05_missing_yield")}
     for i, cl in rejects:
         e = by_id[i]
         if cl.startswith("harness"):
             raise tlc.MachineryError("harness produced an inconsistent pipeline event: %s %r" % (cl, e))
         ld = loads[e["rid"]]
         mine = cl.startswith(OWN[prop])
+        if prop == "C18" and cl == "c18_spec" and e["rid"] in c05_runs:
+            mine = False     # the accumulators differ from the spec because a yield was wrong, not because of a fault
         # a run that dies, or loses / corrupts the healthy results, while unrunnable entries are configured: C18
         if prop == "C18" and cl in ("c05_total", "c06_total", "c05_missing_yield") and has_fault(ld["table"], ld["config"]):
             mine = True
